@@ -88,6 +88,24 @@ func c05Values(r *eng.Run) {
 			}
 		}
 	}
+	// the boundary values followed by tails of many lengths (fast paths that need a minimum number
+	// of remaining bytes) and in front of other members
+	for _, c := range centres {
+		for d := int64(-1); d <= 1; d++ {
+			v := new(big.Int).Add(c, big.NewInt(d))
+			for _, tl := range []int{1, 2, 7, 8, 11, 12, 13, 15, 16, 17, 24, 31, 32, 33, 48, 64, 100, 300} {
+				for _, unit := range []string{" ", ",1", "]"} {
+					tail := strings.Repeat(unit, tl)[:tl]
+					if unit == "]" {
+						tail = "," + strings.Repeat("9", tl)
+					}
+					one([]byte(v.String() + tail))
+					one([]byte("-" + v.String() + tail))
+					one([]byte("  -" + v.String() + tail))
+				}
+			}
+		}
+	}
 	// all |v| < 10^5
 	eng.Parallel(100000, func(i int) {
 		v := big.NewInt(int64(i))
